@@ -830,7 +830,8 @@ SCOPE = (
     "quick, 4 thorough).  Chunk kernels _mpi_newman_betweenness, _mpi_nsi_newman_betweenness, "
     "Network._mpi_nsi_arenas_betweenness, _nsi_betweenness called directly: every contiguous "
     "partition of the node range for connected graphs with 2..5 (thorough 2..7) nodes, random "
-    "partitions incl. one-node chunks and the master's own chunking for 8..25 (..44) nodes, V "
+    "partitions incl. one-node chunks and the master's own chunking for 8..25 (..44; the Python "
+    "Arenas kernel ..25) nodes, V "
     "random or the padded inverse reduced Kirchhoff matrix.  Tolerance 1e-9 relative to the "
     "largest serial value (partial sums are re-associated; chunk slices are otherwise copied).")
 RULE = (
